@@ -28,13 +28,13 @@ PROPS_FILES = ["LccModel/Props/C05.lean", "LccModel/Props/C05Run.lean", "LccMode
 NAMESPACES = {"LccModel/Props/C05.lean": "LccModel.C05", "LccModel/Props/C05Run.lean": "LccModel.C05Run",
               "LccModel/Props/C05Desc.lean": "LccModel.C05Desc"}
 DRIVER = "drivers/Run.lean"
-TRUSTED_BASE = RUN_TRUSTED + ["every N-thread run is compared with a 1-thread run of the same project by the oracle (timestamp-free normal forms, attachments by content)",
+TRUSTED_BASE = RUN_TRUSTED + ["C05.sched: the 'real stream' of a run is what the recording event manager saw in fire(): event.time (rounded to ms), event.thread_id, the raw attachment name attachments/%04d_name (harness/run/observe.py `fire_raw`, `att_names`; harness/props/c05.py `real_stream`). The harness's re-labelling (times := positions, one thread id per (result location, real thread), the 1-thread events matched onto the N-thread ones) is NOT trusted: the verified boolean nThreadsCheckB checks that the re-labelled streams are the real ones up to a thread-id table (injective on (location, thread id) pairs, or lookup-preserving where CPython re-used thread idents), times and attachment counters, and C05.n_threads_equals_one_thread carries the conclusion back to the real streams", "every N-thread run is compared with a 1-thread run of the same project by the oracle (timestamp-free normal forms, attachments by content)",
                               "hand-written models Model/Matcher.lean (descriptions, shared with C16/C17) and Model/Interleave.lean (M12c: threads taking atomic steps on a heap of "
                               "MatcherDescriptionTransformer objects); stream C05.desc: harness/props/c05.py + harness/sched/linesched.py (pre-emption between source lines of "
                               "lemoncheesecake/matching/**, not inside a line); the transformer objects a thread applies or writes are observed through the class's own __call__ / __setattr__"]
 ASSUMPTIONS = RUN_ASSUMPTIONS + ["schedule-independent features only (profile 'independent': no Abort*, no --stop-on-failure, no per-thread fixtures); sibling ranks pairwise distinct (declared tests always have distinct ranks; tests added with add_test_into_suite get one since fix a149e47)"]
-RULE = 'C05.desc: 2..4 real threads × 1..5 checks each (check_that / require_that / assert_that / check_that_in; matcher expressions of harness/gen/matchers.py incl. not_, composites, user-defined Matcher subclasses under not_/composites) under the seeded line scheduler over lemoncheesecake/matching/**; non-trivial = the recorded line trace switches threads inside the matching layer and ≥ 2 threads recorded a check.  C05.run: generated project (harness/run/gen.py) × nb_threads 1..8 × gate strategy (off/fifo/lifo/random) forcing completion orders; non-trivial = ≥ 2 tests, ≥ 1 body entered, ≥ 8 events; distinct = hash of the case (project + schedule parameters); C05 additionally needs N ≥ 2 and a completion order that differs from the declaration order'
-EXPLANATION = "Description building by several threads at once: threads that only touch transformer objects of their own compute under any schedule what they compute alone (LccModel.C05Desc, generic over the threads' code, instantiated on in-place negating description programs, refuted for a shared transformer); the hypothesis is observed on every real call. The writer's result is invariant under swaps of independent events and the rank-sorted view removes arrival order under distinct sibling ranks (Lean theorems); every N-thread run is replayed on the composed model (whose per-task outputs are functions of the project, not of the schedule) and compared by the oracle with the 1-thread run."
+RULE = 'C05.desc: 2..4 real threads × 1..5 checks each (check_that / require_that / assert_that / check_that_in; matcher expressions of harness/gen/matchers.py incl. not_, composites, user-defined Matcher subclasses under not_/composites) under the seeded line scheduler over lemoncheesecake/matching/**; non-trivial = the recorded line trace switches threads inside the matching layer and ≥ 2 threads recorded a check.  C05.run / C05.sched: generated project (harness/run/gen.py) × nb_threads 1..8 × gate strategy (off/fifo/lifo/random) forcing completion orders; non-trivial = ≥ 2 tests, ≥ 1 body entered, ≥ 8 events; distinct = hash of the case (project + schedule parameters); C05 additionally needs N ≥ 2 and a completion order that differs from the declaration order'
+EXPLANATION = "Description building by several threads at once: threads that only touch transformer objects of their own compute under any schedule what they compute alone (LccModel.C05Desc, generic over the threads' code, instantiated on in-place negating description programs, refuted for a shared transformer); the hypothesis is observed on every real call. n_threads_equals_one_thread: the REAL streams of an N-thread run and of a 1-thread run (real thread ids, times, attachment names), both inside the discipline, whose re-labelled versions (thread ids through tables injective on (location, thread id) pairs or lookup-preserving; times and attachment counters changed, zero-ness of step-end times kept) have the same events and order every two dependent events alike, fold to reports with the same content up to timestamps and, under distinct sibling ranks, equal rank-sorted views up to timestamps (eraseTimes). Ingredients: projection lemma + swap-equivalence (report_independent_of_schedule), the writer commutes with re-labellings of the labels it only copies (only_timestamps_differ), thread ids are only keys of active_steps (thread_ids_are_only_keys). All hypotheses are decided by the verified boolean nThreadsCheckB on every pair (N-thread run, 1-thread run) of real fired streams (stream C05.sched). Every N-thread run is also replayed on the composed model (whose per-task outputs are functions of the project, not of the schedule) and compared by the oracle with the 1-thread run."
 
 
 def witness(title_prefix):
@@ -77,6 +77,195 @@ class Run(PropRunStream):
         case = super().gen(rng, i)
         case["project"] = distinct_ranks(case["project"])
         return case
+
+
+import re as _re
+from gen import reports as _R
+from run import observe as _O
+
+_ATT = _re.compile(r"^(attachments/)\d{4}_")
+
+
+def _key(e):
+    """what identifies an event across two schedules of one run: everything but thread id, time and the global
+    attachment counter"""
+    d = {k: v for k, v in e.items() if k not in ("tid", "t")}
+    if d.get("e") == "att" and isinstance(d.get("file"), str):
+        d["file"] = _ATT.sub(r"\1", d["file"])
+    return C.case_hash(d)
+
+
+def match(base, ref):
+    """for every event of `base` (1-thread run) the index of the event of `ref` (N-thread run) with the same key and the same
+    occurrence number; None when the two runs did not fire the same events.  (An untrusted matching: what is built from it
+    is checked by the verified boolean.)"""
+    pool = {}
+    for i, e in enumerate(ref):
+        pool.setdefault(_key(e), []).append(i)
+    out = []
+    for e in base:
+        lst = pool.get(_key(e))
+        if not lst:
+            return None
+        out.append(lst.pop(0))
+    return out if not any(pool.values()) else None
+
+
+def labels(real_n, real_1, m):
+    """thread-id tables for the two real streams: one label per class of (result location, real thread id) pairs, two pairs
+    being in one class when a matched pair of events connects them.  Without thread-ident re-use this is one label per
+    (location, real thread) of the N-thread run and the 1-thread pairs get the label of their matching pair; CPython re-uses
+    the ident of an ended thread, so either run may identify two lcc.Threads (run one after the other) that the other run
+    tells apart — the classes then merge their ids in the run that separates them."""
+    parent = {}
+
+    def find(x):
+        parent.setdefault(x, x)
+        while parent[x] != x:
+            parent[x] = parent[parent[x]]
+            x = parent[x]
+        return x
+    pair = lambda side, e: (side, C.case_hash(e.get("loc")), e["tid"])
+    for e in real_n:
+        if "tid" in e:
+            find(pair("N", e))
+    if m is not None:
+        for e1, i in zip(real_1, m):
+            if "tid" in e1:
+                parent[find(pair("1", e1))] = find(pair("N", real_n[i]))
+    ids, tabs = {}, {"N": [], "1": []}
+    for side, stream in (("N", real_n), ("1", real_1 if m is not None else [])):
+        seen = set()
+        for e in stream:
+            if "tid" in e and pair(side, e) not in seen:
+                seen.add(pair(side, e))
+                tabs[side].append([e["loc"], e["tid"], ids.setdefault(find(pair(side, e)), len(ids) + 1)])
+    return tabs["N"], tabs["1"]
+
+
+def real_stream(o):
+    """the fired events AS THE WRITER RECEIVES THEM: the event's own thread_id and time (ms), the raw attachment file name
+    (`attachments/%04d_name`) — the recorder's canonical trace has thread numbers, t = 0 and un-prefixed names instead"""
+    raw_names = {i: n for i, n in o.get("att_names", [])}
+    out, k = [], 0
+    for i, r in enumerate(o["trace"]):
+        if r[0] != "fire":
+            continue
+        e = dict(r[2])
+        t, tid = o["fire_raw"][k]
+        k += 1
+        e["t"] = t
+        if "tid" in e:
+            e["tid"] = tid
+        if i in raw_names:
+            e["file"] = raw_names[i]
+        out.append(e)
+    return out
+
+
+class Sched(PropRunStream):
+    """The hypotheses of `C05.n_threads_equals_one_thread`, checked by the VERIFIED boolean `nThreadsCheckB`
+    (Lemmas/WriterNThreads.lean, soundness theorem `C05.n_threads_check_sound`) on every pair (N-thread run, 1-thread run) of
+    REAL fired streams — real thread ids, real times, raw attachment names:
+      * both real streams are handled without error within the (strengthened) discipline;
+      * the harness's re-labelled streams a, b ARE the real streams with thread ids re-labelled through the two tables it
+        sends along (each injective on the (location, thread id) pairs of its stream, or at least keeping every lookup of
+        active_steps on the same binding: CPython re-uses the idents of ended threads, so a table may merge the ids of two
+        lcc.Threads that ran one after the other), up to times and attachment counters;
+      * a, b pass `scheduleCheckB`: same events, no event twice, every two dependent events in the same order."""
+    name = "C05.sched"
+    prop = "C05"
+    driver = "drivers/C05.lean"
+    profile = "independent"
+    oracles = ()
+    threads = (2, 2, 3, 4, 8)
+    strategies = ("fifo", "lifo", "random", "random")
+    quick_cases = 90
+    quick_seconds = 25
+    thorough_cases = 900
+    thorough_seconds = 250
+    max_events = 170
+    corpus = [witness("(control) distinct ranks")] + W2.CONTROLS[:1]
+
+    def gen(self, rng, i):
+        case = super().gen(rng, i)
+        case["project"] = distinct_ranks(case["project"])
+        return case
+
+    def impl(self, case):
+        obs = _O.run_project(case["project"], strategy=case["strategy"], gate_seed=case["gseed"])
+        base = _O.run_project(dict(case["project"], nb_threads=1), strategy="off")
+        fired = lambda o: [r[2] for r in o["trace"] if r[0] == "fire"]
+        return {"outcome": obs["outcome"], "outcome1": base["outcome"], "fired": fired(obs), "fired1": fired(base),
+                "real": real_stream(obs), "real1": real_stream(base), "trace": [], "report": obs.get("report")}
+
+    def oracle(self, case, obs):
+        return []           # the statement-level comparison of the two reports is C05.run's oracle
+
+    def request(self, case, obs):
+        if "returned" not in obs["outcome"] or "returned" not in obs["outcome1"]:
+            return None
+        if len(obs["fired"]) > self.max_events:
+            return None
+        # the re-labelling: thread id := one id per class of (result location, real thread) pairs (`labels`) — a worker that
+        # runs two tests one after the other is two "threads" for the writer, whose only use of the id is the key of the
+        # open step —, time := position in the N-thread stream (events must be distinguishable); the 1-thread events are
+        # replaced by the matching re-labelled N-thread events.  tabN / tab1 are the two thread-id tables, explicitly.
+        m = match(obs["real1"], obs["real"])
+        tab_n, tab_1 = labels(obs["real"], obs["real1"], m)
+        rho_n = {(C.case_hash(l), t): k for l, t, k in tab_n}
+        a = []
+        for i, e in enumerate(obs["real"]):
+            e = dict(e, t=i + 1)
+            if "tid" in e:
+                e["tid"] = rho_n[(C.case_hash(e.get("loc")), e["tid"])]
+            a.append(e)
+        if m is None:
+            b = [dict(e, t=i + 1) for i, e in enumerate(obs["real1"])]      # not the same events: the check says so
+        else:
+            b = [a[i] for i in m]
+        return {"realN": _R.wire(obs["real"]), "real1": _R.wire(obs["real1"]), "a": _R.wire(a), "b": _R.wire(b),
+                "tabN": _R.wire(tab_n), "tab1": _R.wire(tab_1)}
+
+    def compare(self, case, obs, ans):
+        if "error" in ans:
+            return "model error: " + str(ans["error"])
+        if not ans["check"]:
+            return ("the two schedules do not satisfy the hypotheses of C05.report_independent_of_schedule: nodup=%s perm=%s "
+                    "dependent-order=%s disciplined=%s first offending pair: %s"
+                    % (ans["nodup"], ans["perm"], ans["order"], ans["disciplined"], _R.unwire(ans["bad_pair"])))
+        if not ans["n_threads_check"]:
+            return ("the real streams do not satisfy the hypotheses of C05.n_threads_equals_one_thread: real N-thread stream "
+                    "disciplined=%s, real 1-thread stream disciplined=%s, thread-id table injective or lookup-preserving N=%s 1=%s, re-labelled "
+                    "stream = real stream re-labelled (up to times / attachment counters) N=%s 1=%s; first difference: %s"
+                    % (ans["disciplined_realN"], ans["disciplined_real1"], ans["tid_ok_N"], ans["tid_ok_1"], ans["labels_N"],
+                       ans["labels_1"], _R.unwire(ans["labels_N_diff"] or ans["labels_1_diff"])))
+        if not ans["views_equal"] or not ans["disciplined_b"] or not ans["real_views_equal"]:
+            return "the check holds but the folded views differ (would contradict the theorem)"
+        return None
+
+    def nontrivial(self, case, obs):
+        return len(obs["fired"]) >= 8 and obs["fired"] != obs["fired1"]
+
+    def features(self, case, obs):
+        n = len(obs["fired"])
+        f = ["events=%s" % ("<=40" if n <= 40 else "41-100" if n <= 100 else "101-170" if n <= 170 else ">170 (not checked)"),
+             "threads=%d" % case["project"]["nb_threads"]]
+        same = [dict(e, tid=0, t=0) for e in obs["fired"]] == [dict(e, tid=0, t=0) for e in obs["fired1"]]
+        f.append("same-order-as-1-thread" if same else "reordered")
+        locs = {}
+        for e in obs.get("real", []):
+            if "tid" in e:
+                locs.setdefault(e["tid"], set()).add(C.case_hash(e.get("loc")))
+        f.append("a-real-thread-id-at-several-locations" if any(len(v) > 1 for v in locs.values()) else "one-location-per-thread-id")
+        m = match(obs.get("real1", []), obs.get("real", []))
+        if m is not None:
+            tab_n, tab_1 = labels(obs["real"], obs["real1"], m)
+            if len({k for _, _, k in tab_n}) < len(tab_n) or len({k for _, _, k in tab_1}) < len(tab_1):
+                f.append("thread-ident-reuse: a table merges two ids")
+        if any(e.get("e") == "att" for e in obs["fired"]):
+            f.append("attachments")
+        return f
 
 
 # =================================================================================================
@@ -466,4 +655,4 @@ class Desc(C.Stream):
 
 
 def streams(ctx):
-    return [Run(), Desc()]
+    return [Run(), Sched(), Desc()]
